@@ -3,11 +3,13 @@ package rules
 import (
 	"fmt"
 	"go/constant"
+	"go/token"
 	"go/types"
 	"os"
 	"path/filepath"
 	"reflect"
 	"regexp"
+	"sort"
 	"strconv"
 	"strings"
 
@@ -53,6 +55,28 @@ func callsAny(fn *ssa.Function, names ...string) bool {
 	return false
 }
 
+// reachesAny: fn, or a repository function it calls statically within depth steps, calls one of the names.
+func reachesAny(fn *ssa.Function, depth int, names ...string) bool {
+	if callsAny(fn, names...) {
+		return true
+	}
+	if depth == 0 {
+		return false
+	}
+	for _, b := range fn.Blocks {
+		for _, in := range b.Instrs {
+			if ci, ok := in.(ssa.CallInstruction); ok {
+				if cal := ci.Common().StaticCallee(); cal != nil && cal != fn && len(cal.Blocks) > 0 && core.FnPkgPath(cal) == core.FnPkgPath(fn) {
+					if reachesAny(cal, depth-1, names...) {
+						return true
+					}
+				}
+			}
+		}
+	}
+	return false
+}
+
 // ruleConfigFileTable is C16-R1.
 func ruleConfigFileTable(c *core.Ctx, rule string) {
 	load := c.P.LookupMethod(optionsPkg, "Options", "Load")
@@ -63,7 +87,7 @@ func ruleConfigFileTable(c *core.Ctx, rule string) {
 	x := newExec(c)
 	x.Hooks.Inline = func(callee *ssa.Function, depth int) bool {
 		// the small helpers that look at the file system or read the file
-		return callsAny(callee, "os.Stat", "os.Lstat", "gcfg.v1.ReadInto", "os.Open")
+		return reachesAny(callee, 3, "os.Stat", "os.Lstat", "gcfg.v1.ReadInto", "os.Open")
 	}
 	x.Hooks.Call = func(x *absint.Exec, s *absint.State, site ssa.CallInstruction, callee *ssa.Function, fnv absint.Value, args []absint.Value) (absint.Value, bool) {
 		if v, ok := flagStub(x, s, callee, args); ok {
@@ -198,169 +222,205 @@ func settingStruct(ptrT types.Type) bool {
 func settingWriters(p *core.Program) []*ssa.Function {
 	var out []*ssa.Function
 	for _, fn := range p.Funcs {
-		if core.FnPkgPath(fn) != optionsPkg || fn.Signature.Recv() == nil || fn.Parent() != nil || fn.Name() == "Load" {
+		if core.FnPkgPath(fn) != optionsPkg || fn.Signature.Recv() == nil || fn.Parent() != nil || fn.Name() == "Load" || len(fn.Blocks) == 0 {
 			continue
 		}
-		writes := false
-		for _, b := range fn.Blocks {
-			for _, in := range b.Instrs {
-				if st, ok := in.(*ssa.Store); ok {
-					if fa, ok := st.Addr.(*ssa.FieldAddr); ok {
-						if _, is := settingFlag[fieldName(fa.X.Type(), fa.Field)]; is && settingStruct(fa.X.Type()) {
-							writes = true
-						}
-					}
-				}
+		if !strings.HasSuffix(fn.Signature.Recv().Type().String(), "options.Options") {
+			continue
+		}
+		takesCtx := false
+		for _, prm := range fn.Params[1:] {
+			if strings.HasSuffix(prm.Type().String(), "cli/v2.Context") {
+				takesCtx = true
 			}
 		}
-		if writes {
+		if takesCtx {
 			out = append(out, fn)
 		}
 	}
+	sort.Slice(out, func(i, j int) bool { return out[i].Name() < out[j].Name() })
 	return out
+}
+
+// ruleGuardedOverridesOnly applies the guard rule to the named settings only.
+func ruleGuardedOverridesOnly(c *core.Ctx, rule string, fields ...string) {
+	saved := settingFlag
+	only := map[string]string{}
+	for _, f := range fields {
+		if v, ok := saved[f]; ok {
+			only[f] = v
+		}
+	}
+	settingFlag = only
+	defer func() { settingFlag = saved }()
+	ruleGuardedOverrides(c, rule, "")
 }
 
 // ruleGuardedOverrides is C16-R2 and C16-R4.
 func ruleGuardedOverrides(c *core.Ctx, rule, ruleNoDB string) {
 	ws := settingWriters(c.P)
 	if len(ws) == 0 {
-		c.Undecide(rule, "options", "universe", "-", "no method of Options stores into a documented setting", nil)
+		c.Undecide(rule, "options", "universe", "-", "no method of Options taking the command-line context ends with a documented setting changed", nil)
 		return
 	}
 	seenField := map[string]bool{}
+	flagTerm := func(m, name string) string {
+		return absint.NewTerm("flag:"+m, absint.Const{V: constant.MakeString(name)}).Key()
+	}
 	for _, fn := range ws {
 		fname := core.FuncName(fn)
+		recv := fn.Params[0].Name()
 		x := newExec(c)
 		var bad, badNoDB []string
 		x.Hooks.Call = func(x *absint.Exec, s *absint.State, site ssa.CallInstruction, callee *ssa.Function, fnv absint.Value, args []absint.Value) (absint.Value, bool) {
 			if v, ok := flagStub(x, s, callee, args); ok {
 				return v, true
 			}
-			if callee != nil && callee.String() == "time.Parse" && len(args) == 2 {
-				// the layout --today is parsed with must be the effective date format at this point
-				cur := x.Load(s, absint.Ptr{Loc: "L:§" + fn.Params[0].Name() + "·GlobalConfig·DateFormat"}, nil)
-				if args[0].Key() != cur.Key() {
-					bad = append(bad, fmt.Sprintf("%s: a date given on the command line is parsed with layout %s, but the effective date format at this point is %s (it may come from the configuration file)", c.P.Pos(site.Pos()), args[0].Key(), cur.Key()))
-				}
-			}
 			return nil, false
-		}
-		x.Hooks.Store = func(x *absint.Exec, s *absint.State, in *ssa.Store, addr, val absint.Value) {
-			p, ok := addr.(absint.Ptr)
-			if !ok {
-				return
-			}
-			fld := p.Loc[strings.LastIndex(p.Loc, "·")+len("·"):]
-			flagName, is := settingFlag[fld]
-			if !is || !strings.HasPrefix(p.Loc, "L:§"+fn.Params[0].Name()+"·") || !(strings.Contains(p.Loc, "·GlobalConfig·") || strings.Contains(p.Loc, "·ResolverConfig·")) {
-				return
-			}
-			seenField[fld] = true
-			pos := c.P.Pos(in.Pos())
-			// value: the flag's value (for Now: parsed from it)
-			okVal := false
-			for _, m := range []string{"String", "Int", "Bool"} {
-				want := absint.NewTerm("flag:"+m, absint.Const{V: constant.MakeString(flagName)}).Key()
-				if val.Key() == want || strings.Contains(val.Key(), want) {
-					okVal = true
-				}
-			}
-			if !okVal {
-				bad = append(bad, fmt.Sprintf("%s: setting %s is assigned %s, not the value of --%s", pos, fld, val.Key(), flagName))
-			}
-			// guard: IsSet(flag) or the field still zero
-			isSet := x.Possible(s, absint.NewTerm("b", absint.NewTerm("flag:IsSet", absint.Const{V: constant.MakeString(flagName)})).Key())
-			_ = isSet
-			setOuts := x.Possible(s, "b("+absint.NewTerm("flag:IsSet", absint.Const{V: constant.MakeString(flagName)}).Key()+")")
-			set := len(setOuts) == 1 && setOuts[0] == "T"
-			zero := false
-			for k := range s.PC {
-				if strings.HasPrefix(k, "ord(") && strings.Contains(k, "§@") {
-					parts := splitTop(strings.TrimSuffix(strings.TrimPrefix(k, "ord("), ")"))
-					if len(parts) != 2 {
-						continue
-					}
-					for i := 0; i < 2; i++ {
-						if (parts[i] == `c:""` || parts[i] == "c:0") && locOf(x, absint.Sym{Name: strings.TrimPrefix(parts[1-i], "§")}) == p.Loc {
-							if o := x.Possible(s, k); len(o) == 1 && o[0] == "=" {
-								zero = true
-							}
-						}
-					}
-				}
-			}
-			if !set && !zero {
-				bad = append(bad, fmt.Sprintf("%s: setting %s is overwritten from --%s on a path where neither the flag/environment variable is set nor the value is still empty (%s): a value from the configuration file is lost, or a flag spelled like the default is ignored", pos, fld, flagName, x.Valuation(s)))
-			}
-			if fld == "DbFileName" {
-				nd := x.Possible(s, `b(flag:IsSet(c:"no-database"))`)
-				if len(nd) == 1 && nd[0] == "T" {
-					badNoDB = append(badNoDB, pos+": the book path is set although --no-database is given")
-				}
-			}
 		}
 		terms := x.Run(x.NewState(fn, nil, nil))
 		if !account(c, x, rule, fn) {
 			continue
 		}
-		// every flag that is set wins
+		// the settings are judged on the state each path ends with, wherever the stores happen (directly, in a
+		// helper, or on a local copy that is stored back)
+		locOfField := func(fld string) string {
+			sec := "GlobalConfig"
+			if fld == "MaxDepth" {
+				sec = "ResolverConfig"
+			}
+			return "L:§" + recv + "·" + sec + "·" + fld
+		}
+		final := func(s *absint.State, fld string) (v absint.Value, changed bool) {
+			loc := locOfField(fld)
+			hv, ok := s.Heap[loc]
+			if !ok {
+				// a structure (time.Time) may have been written field by field, or not at all
+				for k := range s.Heap {
+					if strings.HasPrefix(k, loc+"·") {
+						if locOf(x, s.Heap[k]) != k {
+							return s.Heap[k], true
+						}
+					}
+				}
+				return nil, false
+			}
+			if locOf(x, hv) == loc {
+				return hv, false
+			}
+			return hv, true
+		}
+		wasZero := func(s *absint.State, fld string) bool {
+			loc := locOfField(fld)
+			for k := range s.PC {
+				if !strings.HasPrefix(k, "ord(") || !strings.Contains(k, "§@") {
+					continue
+				}
+				parts := splitTop(strings.TrimSuffix(strings.TrimPrefix(k, "ord("), ")"))
+				if len(parts) != 2 {
+					continue
+				}
+				for i := 0; i < 2; i++ {
+					if (parts[i] == `c:""` || parts[i] == "c:0") && locOf(x, absint.Sym{Name: strings.TrimPrefix(parts[1-i], "§")}) == loc {
+						if o := x.Possible(s, k); len(o) == 1 && o[0] == "=" {
+							return true
+						}
+					}
+				}
+			}
+			return false
+		}
+		changesSomething := false
 		for _, tm := range terms {
 			if tm.Kind != "return" {
 				continue
 			}
+			st := tm.State
+			errReturn := len(tm.Ret) == 1 && nilnessOf(x, st, tm.Ret[0]) == "nonnil"
+			noDB := false
+			if nd := x.Possible(st, "b("+flagTerm("IsSet", "no-database")+")"); len(nd) == 1 && nd[0] == "T" {
+				noDB = true
+			}
+			if nd := x.Possible(st, "b("+flagTerm("Bool", "no-database")+")"); len(nd) == 1 && nd[0] == "T" {
+				noDB = true
+			}
 			for fld, flagName := range settingFlag {
-				setOuts := x.Possible(tm.State, "b("+absint.NewTerm("flag:IsSet", absint.Const{V: constant.MakeString(flagName)}).Key()+")")
-				if len(setOuts) != 1 || setOuts[0] != "T" {
-					continue
-				}
-				if fld == "DbFileName" {
-					if nd := x.Possible(tm.State, `b(flag:IsSet(c:"no-database"))`); len(nd) == 1 && nd[0] == "T" {
-						continue
+				v, changed := final(st, fld)
+				fromFlag := false
+				if changed {
+					changesSomething = true
+					for _, m := range []string{"String", "Int", "Bool"} {
+						if strings.Contains(v.Key(), flagTerm(m, flagName)) {
+							fromFlag = true
+						}
 					}
 				}
-				// error returns (a bad --today) are fine
-				if len(tm.Ret) == 1 && nilnessOf(x, tm.State, tm.Ret[0]) == "nonnil" {
-					continue
-				}
-				found := false
-				for k, hv := range tm.State.Heap {
-					if strings.HasSuffix(k, "·"+fld) && strings.Contains(hv.Key(), `c:"`+flagName+`"`) {
-						found = true
+				setOuts := x.Possible(st, "b("+flagTerm("IsSet", flagName)+")")
+				set := len(setOuts) == 1 && setOuts[0] == "T"
+				switch {
+				case changed && !fromFlag:
+					if fld == "DbFileName" && noDB {
+						break // judged by the no-database rule below
 					}
-				}
-				if !found {
-					bad = append(bad, fmt.Sprintf("--%s is set but %s does not end up with its value (%s)", flagName, fld, x.Valuation(tm.State)))
+					bad = append(bad, fmt.Sprintf("setting %s ends as %s, not the value of --%s (%s)", fld, v.Key(), flagName, x.Valuation(st)))
+				case changed && fromFlag:
+					seenField[fld] = true
+					if !set && !wasZero(st, fld) {
+						bad = append(bad, fmt.Sprintf("setting %s is overwritten from --%s on a path where neither the flag/environment variable is set nor the value is still empty (%s): a value from the configuration file is lost, or a flag spelled like the default is ignored", fld, flagName, x.Valuation(st)))
+					}
+					if fld == "Now" {
+						// the layout --today is parsed with must be the date format this path ends with
+						if t, ok := findCall(v, "time.Parse"); ok && len(t.Args) >= 1 {
+							df, dfChanged := final(st, "DateFormat")
+							want := ""
+							if df != nil {
+								want = df.Key()
+							}
+							if !dfChanged && df == nil {
+								want = x.Load(st, absint.Ptr{Loc: locOfField("DateFormat")}, nil).Key()
+							}
+							if t.Args[0].Key() != want {
+								bad = append(bad, fmt.Sprintf("a date given on the command line is parsed with layout %s, but the effective date format is %s (it may come from the configuration file)", t.Args[0].Key(), want))
+							}
+						}
+					}
+					if fld == "DbFileName" && noDB {
+						badNoDB = append(badNoDB, "the book path is set from --database although --no-database is given")
+					}
+				case !changed && set && !errReturn:
+					if fld == "DbFileName" && noDB {
+						break
+					}
+					bad = append(bad, fmt.Sprintf("--%s is set but %s does not end up with its value (%s)", flagName, fld, x.Valuation(st)))
 				}
 			}
 			// C16-R4: --no-database behaves as an empty book
-			if nd := x.Possible(tm.State, `b(flag:IsSet(c:"no-database"))`); len(nd) == 1 && nd[0] == "T" {
-				dbLoc := "L:§" + fn.Params[0].Name() + "·GlobalConfig·DbFileName"
-				hv, written := tm.State.Heap[dbLoc]
-				if !written {
+			if noDB {
+				v, changed := final(st, "DbFileName")
+				if !changed {
 					badNoDB = append(badNoDB, "with --no-database the book path keeps whatever the configuration file or the default gave it: the book is still opened and resolved")
-				} else if cst, ok := hv.(absint.Const); !ok || cst.V == nil || cst.V.ExactString() != `""` {
-					badNoDB = append(badNoDB, "with --no-database the book path becomes "+hv.Key())
+				} else if cst, ok := v.(absint.Const); !ok || cst.V == nil || cst.V.ExactString() != `""` {
+					badNoDB = append(badNoDB, "with --no-database the book path becomes "+v.Key())
 				}
 			}
 		}
+		if !changesSomething {
+			continue // not a writer of documented settings (filter, reporter switches)
+		}
 		bad, badNoDB = uniq(bad), uniq(badNoDB)
 		if len(bad) == 0 {
-			c.Discharge(rule, fname, "guards", c.P.Pos(fn.Pos()), fmt.Sprintf("every setting it writes is written from its own flag, only when the flag/environment is set or the value is still empty; a set flag always wins (%d paths)", len(terms)))
+			c.Discharge(rule, fname, "guards", c.P.Pos(fn.Pos()), fmt.Sprintf("every setting it changes ends as the value of its own flag, only when the flag/environment is set or the value was still empty; a set flag always wins (%d paths)", len(terms)))
 		}
 		for _, m := range bad {
 			c.Violate(rule, fname, "guards", c.P.Pos(fn.Pos()), m, nil)
 		}
 		touchesDB := false
-		for _, b := range fn.Blocks {
-			for _, in := range b.Instrs {
-				if st, ok := in.(*ssa.Store); ok {
-					if fa, ok := st.Addr.(*ssa.FieldAddr); ok && fieldName(fa.X.Type(), fa.Field) == "DbFileName" {
-						touchesDB = true
-					}
-				}
+		for _, tm := range terms {
+			if _, ch := final(tm.State, "DbFileName"); ch {
+				touchesDB = true
 			}
 		}
-		if touchesDB {
+		if _, isDB := settingFlag["DbFileName"]; isDB && touchesDB && ruleNoDB != "" {
 			if len(badNoDB) == 0 {
 				c.Discharge(ruleNoDB, fname, "no-database", c.P.Pos(fn.Pos()), "--no-database leaves no book path to open")
 			} else {
@@ -373,6 +433,26 @@ func ruleGuardedOverrides(c *core.Ctx, rule, ruleNoDB string) {
 			c.Violate(rule, "options", "setting "+fld, "-", fmt.Sprintf("no method of Options ever stores --%s into %s: the command-line value cannot take effect", fl, fld), nil)
 		}
 	}
+}
+
+// findCall: the first sub-term of v that is a call of the named function.
+func findCall(v absint.Value, name string) (*absint.Term, bool) {
+	t, ok := v.(*absint.Term)
+	if !ok {
+		if iv, isI := v.(*absint.Iface); isI {
+			return findCall(iv.V, name)
+		}
+		return nil, false
+	}
+	if strings.HasPrefix(t.Op, "call:"+name) {
+		return t, true
+	}
+	for _, a := range t.Args {
+		if r, ok := findCall(a, name); ok {
+			return r, true
+		}
+	}
+	return nil, false
 }
 
 // ruleSettingTables is C16-R3: flag table, README option listing, defaults and documented config keys agree.
@@ -598,18 +678,191 @@ func ruleSettingSources(c *core.Ctx, rule string) {
 func init() {
 	register(&Property{
 		ID:    "C16",
-		Rules: []string{"C16-R1", "C16-R2", "C16-R3", "C16-R4", "C16-R5"},
+		Rules: []string{"C16-R1", "C16-R2", "C16-R3", "C16-R4", "C16-R5", "C16-R6", "C16-R7"},
 		Explain: "Decides the precedence machinery of settings: C16-R1 the configuration-file decision table of Options.Load over stat ∈ {ok, not-exist, other error} x IsSet(config) x useConfigFile (exists ⇒ read; named but missing ⇒ error; default missing ⇒ skipped; stat error ⇒ error); " +
 			"C16-R2 each of the five settings is written from its own flag only when the flag/environment is set or the value is still empty, a set flag always wins, and --today is parsed with the effective date format; " +
 			"C16-R3 flag declarations, README option listing, defaults and documented configuration keys agree, and every flag the code reads is declared; C16-R4 --no-database leaves no book to open; " +
-			"C16-R5 the opener, the resolver's bound and the keyword resolver's now are reached by their documented sources (flag, configuration file, default).",
-		NotDecided: "urfave/cli's own flag-over-environment precedence and gcfg's parsing (trusted)",
+			"C16-R5 the opener, the resolver's bound and the keyword resolver's now are reached by their documented sources (flag, configuration file, default); " +
+			"C16-R6 the configuration file is read into the live options structure (or a complete copy that is completely copied back), so defaults survive for every key the file does not set; " +
+			"C16-R7 the resolver's entry points hand the configured depth limit to the walk untransformed.",
+		NotDecided:  "urfave/cli's own flag-over-environment precedence and gcfg's parsing (trusted)",
 		Assumptions: []string{"urfave/cli: IsSet is true for a flag given on the command line or through its environment variable; String/Int return the flag's default otherwise", "gcfg.ReadInto fills only the gcfg-tagged sections"},
 		Run: func(c *core.Ctx) {
 			ruleConfigFileTable(c, "C16-R1")
 			ruleGuardedOverrides(c, "C16-R2", "C16-R4")
 			ruleSettingTables(c, "C16-R3")
 			ruleSettingSources(c, "C16-R5")
+			ruleConfigTarget(c, "C16-R6")
+			ruleResolverEntries(c, "C16-R7", false, true)
 		},
 	})
+}
+
+// ruleConfigTarget is C16-R6 (and C04-R4): the configuration file is read into
+// the live options — the structure that already holds the defaults and that
+// the flags are applied to afterwards. Reading into a fresh or partially
+// copied structure and copying sections back loses whatever the file cannot
+// set (the parser configuration, "now") or replaces defaults by zero values.
+func ruleConfigTarget(c *core.Ctx, rule string) {
+	isRead := func(cal *ssa.Function) bool {
+		if cal == nil {
+			return false
+		}
+		s := cal.String()
+		return strings.HasSuffix(s, "gcfg.v1.ReadInto") || strings.HasSuffix(s, "gcfg.v1.ReadFileInto") || strings.HasSuffix(s, "gcfg.v1.ReadStringInto")
+	}
+	strip := func(v ssa.Value) ssa.Value {
+		for {
+			switch x := v.(type) {
+			case *ssa.MakeInterface:
+				v = x.X
+			case *ssa.ChangeInterface:
+				v = x.X
+			case *ssa.ChangeType:
+				v = x.X
+			default:
+				return v
+			}
+		}
+	}
+	n := 0
+	var check func(fn *ssa.Function, v ssa.Value, pos string, depth int)
+	check = func(fn *ssa.Function, v ssa.Value, pos string, depth int) {
+		fname := core.FuncName(fn)
+		v = strip(v)
+		switch x := v.(type) {
+		case *ssa.Parameter:
+			if fn.Signature.Recv() != nil && len(fn.Params) > 0 && fn.Params[0] == x {
+				c.Discharge(rule, fname, "target", pos, "the configuration file is read into the receiver "+x.Name()+" itself: defaults set before survive unless the file sets the key, and flags are applied to the same structure afterwards")
+				return
+			}
+			idx := -1
+			for i, p := range fn.Params {
+				if p == x {
+					idx = i
+				}
+			}
+			callers := 0
+			if depth < 4 && idx >= 0 {
+				for _, g := range c.P.Funcs {
+					for _, b := range g.Blocks {
+						for _, in := range b.Instrs {
+							if ci, ok := in.(ssa.CallInstruction); ok && ci.Common().StaticCallee() == fn && idx < len(ci.Common().Args) {
+								callers++
+								check(g, ci.Common().Args[idx], c.P.Pos(in.Pos()), depth+1)
+							}
+						}
+					}
+				}
+			}
+			if callers == 0 {
+				c.Discharge(rule, fname, "target", pos, "the configuration file is read into the caller's structure "+x.Name()+" (no caller in the tree)")
+			}
+		case *ssa.Alloc:
+			st, ok := x.Type().Underlying().(*types.Pointer).Elem().Underlying().(*types.Struct)
+			if !ok {
+				c.Violate(rule, fname, "target", pos, "the configuration file is read into a local value that is not the options structure", nil)
+				return
+			}
+			in, out := map[int]bool{}, map[int]bool{}
+			wholeIn, wholeOut := false, false
+			var params []*ssa.Parameter
+			for _, p := range fn.Params {
+				if types.Identical(p.Type(), x.Type()) {
+					params = append(params, p)
+				}
+			}
+			isParam := func(v ssa.Value) bool {
+				for _, p := range params {
+					if v == ssa.Value(p) {
+						return true
+					}
+				}
+				return false
+			}
+			allocs := map[ssa.Value]bool{x: true}
+			for round := 0; round < 2; round++ {
+				for _, b := range fn.Blocks {
+					for _, ins := range b.Instrs {
+						s, ok := ins.(*ssa.Store)
+						if !ok {
+							continue
+						}
+						// whole-structure copies
+						if ld, ok := s.Val.(*ssa.UnOp); ok && ld.Op == token.MUL {
+							switch {
+							case allocs[s.Addr] && isParam(ld.X):
+								wholeIn = true
+							case allocs[s.Addr]:
+								if a2, ok := ld.X.(*ssa.Alloc); ok && types.Identical(a2.Type(), x.Type()) {
+									allocs[a2] = true // a composite literal built in a temporary
+								}
+							case isParam(s.Addr) && allocs[ld.X]:
+								wholeOut = true
+							}
+						}
+						// field-wise copies
+						fa, ok := s.Addr.(*ssa.FieldAddr)
+						if !ok {
+							continue
+						}
+						ld, ok := s.Val.(*ssa.UnOp)
+						if !ok || ld.Op != token.MUL {
+							continue
+						}
+						fb, ok := ld.X.(*ssa.FieldAddr)
+						if !ok || fb.Field != fa.Field {
+							continue
+						}
+						switch {
+						case allocs[fa.X] && isParam(fb.X):
+							in[fa.Field] = true
+						case isParam(fa.X) && allocs[fb.X]:
+							out[fa.Field] = true
+						}
+					}
+				}
+			}
+			var missIn, missOut []string
+			for i := 0; i < st.NumFields(); i++ {
+				if !wholeIn && !in[i] {
+					missIn = append(missIn, st.Field(i).Name())
+				}
+				if !wholeOut && !out[i] {
+					missOut = append(missOut, st.Field(i).Name())
+				}
+			}
+			switch {
+			case len(params) == 0:
+				c.Violate(rule, fname, "target", pos, "the configuration file is read into a fresh local structure "+x.Comment+" that is not connected to the options the commands use", nil)
+			case len(missIn) > 0:
+				c.Violate(rule, fname, "target", pos, fmt.Sprintf("the configuration file is read into a local copy %s that does not start from the live options: %s not copied in, so after copying back these hold zero values instead of the defaults whenever a configuration file exists", x.Comment, strings.Join(missIn, ", ")), nil)
+			case len(missOut) > 0 && len(missOut) < st.NumFields() || len(missOut) == st.NumFields():
+				if len(missOut) == 0 {
+					break
+				}
+				c.Violate(rule, fname, "target", pos, fmt.Sprintf("the configuration file is read into a local copy %s and only part of it is copied back (%s missing)", x.Comment, strings.Join(missOut, ", ")), nil)
+			default:
+				c.Discharge(rule, fname, "target", pos, "the configuration file is read into a complete copy of the live options which is copied back completely")
+			}
+		default:
+			c.Violate(rule, fname, "target", pos, "the configuration file is read into "+v.String()+", which is not the options structure the defaults were set on", nil)
+		}
+	}
+	for _, fn := range c.P.Funcs {
+		for _, b := range fn.Blocks {
+			for _, in := range b.Instrs {
+				ci, ok := in.(ssa.CallInstruction)
+				if !ok || !isRead(ci.Common().StaticCallee()) || len(ci.Common().Args) == 0 {
+					continue
+				}
+				n++
+				c.Universe(rule+" configuration reads", core.FuncName(fn)+" ("+c.P.Pos(in.Pos())+")")
+				check(fn, ci.Common().Args[0], c.P.Pos(in.Pos()), 0)
+			}
+		}
+	}
+	if n == 0 {
+		c.Undecide(rule, "options", "universe", "-", "no call of gcfg.Read*Into found although a configuration file is documented", nil)
+	}
 }
